@@ -5,7 +5,7 @@ Output formats are the documented ones for exactly the flags gwf passes (DESIGN.
   sbatch --parsable            -> "<id>\\n"  (or "<id>;<cluster>\\n" on a multi-cluster setup)
   squeue --noheader --format=%i;%t --all   -> one "<id>;<code>" row per job in the live queue
   sacct --noheader --parsable2 --format=jobid,state --allocations --jobs a,b -> "<id>|<STATE>" rows
-  scancel --verbose <id>       -> exit 0; "scancel: error: ..." on stderr if the job is unknown
+  scancel --verbose <id>       -> exit 0; "scancel: Terminating job <id>" and then "scancel: error: ..." on stderr if the job is unknown
   qsub -terse [-hold_jid a,b]  -> "<id>\\n";  qstat -f -xml -> <job_list> entries;  qdel <id>
   bsub [-w 'done(a) && done(b)'] -> "Job <id> is submitted to queue <q>.\\n"
   bjobs -noheader -o stat <id> -> "<STATE>\\n" or nothing;  bkill <id>
@@ -82,7 +82,8 @@ class Sim:
                 if self.fault_kind == 0:
                     return 1, "", exe + ": failed (injected, exit status 1)\n"
                 if self.fault_kind == 1:
-                    return 0, "", exe + ": error: injected failure\n"
+                    # (scancel --verbose announces the job before it reports that the request failed)
+                    return 0, "", ("scancel: Terminating job %s\n" % args[-1] if exe == "scancel" else "") + exe + ": error: injected failure\n"
                 return 0, "%%garbage%%\n", ""
         if self.tick is not None:
             self.tick(exe)                    # the process may be killed before the command reaches the scheduler ...
@@ -143,7 +144,7 @@ class Sim:
             j.state = "CA"
             j.in_queue = False
             return 0, "", "scancel: Terminating job %s\n" % jid
-        return 0, "", "scancel: error: Kill job error on job id %s: Invalid job id specified\n" % jid
+        return 0, "", "scancel: Terminating job %s\nscancel: error: Kill job error on job id %s: Invalid job id specified\n" % (jid, jid)
 
     def cmd_sinfo(self, args, inp):
         return 0, "", ""
@@ -328,6 +329,9 @@ class PoolModel:
         self.requests = []
         self.connected = 0
         self.refuse = False
+        self.refuse_first = 0     # the workers come up late: this many connection attempts are refused first
+        self.attempts = []        # every address a connection was attempted to
+        self.slept = []           # what the client slept between attempts (time.sleep is stubbed)
         self.fault_at = None
         self.nreq = 0
 
@@ -389,7 +393,8 @@ class FakeSocket:
         self.addr = None
 
     def connect(self, addr):
-        if POOL.refuse:
+        POOL.attempts.append(tuple(addr))
+        if POOL.refuse or len(POOL.attempts) <= POOL.refuse_first:
             raise ConnectionRefusedError(111, "Connection refused (sim)")
         self.addr = addr
         POOL.connected += 1
@@ -415,6 +420,28 @@ class PatchedSocket(socket.socket):
         return socket.socket.__new__(cls)
 
 
+def f_create_connection(address, *a, **kw):
+    if POOL is None:
+        return REAL["create_connection"](address, *a, **kw)
+    sock = socket.socket(socket.AF_INET, socket.SOCK_STREAM)      # no name lookup: the pool model is the only peer
+    sock.connect(tuple(address))
+    return sock
+
+
+class _NoSleep:
+    """Stands in for the `time` module inside gwf.backends.local: the retry back-off does not really wait."""
+
+    def sleep(self, seconds):
+        if POOL is not None:
+            POOL.slept.append(seconds)
+            if len(POOL.slept) > 50:
+                raise ConnectionRefusedError("gave up after 50 stubbed sleeps (sim)")
+
+    def __getattr__(self, name):
+        import time as _t
+        return getattr(_t, name)
+
+
 _INSTALLED = [False]
 
 
@@ -424,10 +451,14 @@ def install(sim=None, pool=None):
     POOL = pool
     if _INSTALLED[0]:
         return
-    REAL.update(popen=subprocess.Popen, which=shutil.which, socket=socket.socket)
+    REAL.update(popen=subprocess.Popen, which=shutil.which, socket=socket.socket, create_connection=socket.create_connection)
     subprocess.Popen = f_popen
     shutil.which = f_which
     socket.socket = PatchedSocket
+    socket.create_connection = f_create_connection
+    from gwf.backends import local as _local
+    REAL["local_time"] = _local.time
+    _local.time = _NoSleep()
     _INSTALLED[0] = True
 
 
@@ -440,4 +471,7 @@ def uninstall():
     subprocess.Popen = REAL["popen"]
     shutil.which = REAL["which"]
     socket.socket = REAL["socket"]
+    socket.create_connection = REAL["create_connection"]
+    from gwf.backends import local as _local
+    _local.time = REAL["local_time"]
     _INSTALLED[0] = False
